@@ -197,6 +197,86 @@ impl FixedStruct {
         ensures r as int == self.fo_spec() + self.len_spec()
     { unimplemented!() }
 }
+
+// ---- assumed: a raw record pointer keeps the bytes and the type it was made from (buffer_to_fixedstructptr copies
+// `buffer[..size]` with read_unaligned); FixedStruct::from_fixedstructptr builds the entry from that copy
+#[verifier::external_body]
+pub struct FixedStructDynPtr { _p: u8 }
+impl FixedStructDynPtr {
+    pub uninterp spec fn bytes_spec(&self) -> Seq<u8>;
+    pub uninterp spec fn ft_spec(&self) -> FixedStructType;
+    #[verifier::external_body]
+    pub fn fixedstruct_type(&self) -> (r: FixedStructType) ensures r == self.ft_spec() { unimplemented!() }
+}
+#[verifier::external_body]
+pub fn buffer_to_fixedstructptr(buffer: &[u8], fixedstructtype: FixedStructType) -> (r: Option<FixedStructDynPtr>)
+    ensures r is Some ==> buffer@.len() >= fixedstructtype.esz() && r.unwrap().bytes_spec() == buffer@.subrange(0, fixedstructtype.esz()) && r.unwrap().ft_spec() == fixedstructtype
+{ unimplemented!() }
+pub type Score = i32;
+impl FixedStruct {
+    #[verifier::external_body]
+    pub fn from_fixedstructptr(fileoffset: FileOffset, tz_offset: &FixedOffset, fixedstructptr: FixedStructDynPtr) -> (r: core::result::Result<FixedStruct, Error>)
+        ensures r is Ok ==> r->Ok_0.fo_spec() == fileoffset && r->Ok_0.bytes_spec() == fixedstructptr.bytes_spec() && r->Ok_0.len_spec() == fixedstructptr.ft_spec().esz(),
+    { unimplemented!() }
+    #[verifier::external_body]
+    pub fn score_fixedstruct(fixedstructptr: &FixedStructDynPtr, bonus: Score) -> Score { unimplemented!() }
+    #[verifier::external_body]
+    pub fn fileoffset_begin(&self) -> (r: FileOffset) ensures r == self.fo_spec() { unimplemented!() }
+}
+/// stand-in for LinkedList<(FileOffset, FixedStructDynPtr)>: a sequence with push_back and by-value iteration
+#[verifier::external_body]
+pub struct ListFileOffsetFixedStructPtr { _p: u8 }
+#[verifier::external_body]
+pub struct ListIntoIter { _p: u8 }
+impl ListFileOffsetFixedStructPtr {
+    pub uninterp spec fn view(&self) -> Seq<(FileOffset, FixedStructDynPtr)>;
+    #[verifier::external_body]
+    pub fn push_back(&mut self, v: (FileOffset, FixedStructDynPtr)) ensures final(self)@ == old(self)@.push(v) { unimplemented!() }
+    #[verifier::external_body]
+    pub fn len(&self) -> (r: usize) ensures r == self@.len() { unimplemented!() }
+}
+impl ListIntoIter {
+    pub uninterp spec fn rest(&self) -> Seq<(FileOffset, FixedStructDynPtr)>;
+    #[verifier::external_body]
+    pub fn next(&mut self) -> (r: Option<(FileOffset, FixedStructDynPtr)>)
+        ensures old(self).rest().len() == 0 ==> r is None && final(self).rest() == old(self).rest(),
+            old(self).rest().len() > 0 ==> r == Some(old(self).rest()[0]) && final(self).rest() == old(self).rest().subrange(1, old(self).rest().len() as int),
+    { unimplemented!() }
+}
+impl core::iter::IntoIterator for ListFileOffsetFixedStructPtr {
+    type Item = (FileOffset, FixedStructDynPtr);
+    type IntoIter = ListIntoIter;
+    #[verifier::external_body]
+    fn into_iter(self) -> (r: ListIntoIter) ensures r.rest() == self@ { unimplemented!() }
+}
+impl core::iter::Iterator for ListIntoIter {
+    type Item = (FileOffset, FixedStructDynPtr);
+    #[verifier::external_body]
+    fn next(&mut self) -> Option<(FileOffset, FixedStructDynPtr)> { unimplemented!() }
+}
+/// C08: the entry is the file's own record at its own offset
+pub open spec fn rec_true(e: FixedStruct, file: Seq<u8>, ft: FixedStructType) -> bool {
+    e.len_spec() == ft.esz() && e.fo_spec() + ft.esz() <= file.len()
+        && e.bytes_spec() == file.subrange(e.fo_spec() as int, e.fo_spec() + ft.esz())
+}
+/// C08: every pre-parsed entry is stored under its own offset and is the file's record there
+pub open spec fn cache_ok(c: Map<FileOffset, FixedStruct>, file: Seq<u8>, ft: FixedStructType) -> bool {
+    forall|fo: FileOffset| #[trigger] c.contains_key(fo) ==> c[fo].fo_spec() == fo && rec_true(c[fo], file, ft)
+}
+/// C08: a (file offset, raw record) pair found while scoring the file is the file's record at that offset
+pub open spec fn pair_true(p: (FileOffset, FixedStructDynPtr), file: Seq<u8>, ft: FixedStructType) -> bool {
+    p.1.ft_spec() == ft && p.0 + ft.esz() <= file.len() && p.1.bytes_spec() == file.subrange(p.0 as int, p.0 + ft.esz())
+}
+pub open spec fn pairs_true(l: Seq<(FileOffset, FixedStructDynPtr)>, file: Seq<u8>, ft: FixedStructType) -> bool {
+    forall|i: int| 0 <= i < l.len() ==> pair_true(#[trigger] l[i], file, ft)
+}
+#[verifier::external_body]
+pub fn verif_max_usize(a: usize, b: usize) -> (r: usize) ensures r == (if a >= b { a } else { b }) { unimplemented!() }
+/// stand-in for `map.iter().find(|(_k, v)| &fo == *v).is_some()`
+#[verifier::external_body]
+pub fn verif_map_has_value(m: &MapTvPairToFo, fo: &FileOffset) -> (r: bool)
+    ensures r == (exists|k: Key| #[trigger] m@.contains_key(k) && m@[k] == *fo)
+{ unimplemented!() }
 pub type ResultS3FixedStructFind = ResultS3<(FileOffset, FixedStruct), (Option<FileOffset>, Error)>;
 /// whether a message can be built from a record's bytes (FixedStruct::new succeeds): a function of the layout and the bytes
 pub uninterp spec fn buildable(ft: FixedStructType, bytes: Seq<u8>) -> bool;
@@ -254,6 +334,8 @@ pub open spec fn next_after(m: Map<Key, FileOffset>, file: Seq<u8>, ft: FixedStr
            m.contains_key(nxt) && m[nxt] == x && key_lt(kk, nxt) && none_between(m, kk, nxt) })
 }
 
+//@cut type kind=type path=src/readers/fixedstructreader.rs name=FoToEntry
+//@end
 pub struct FixedStructReader {
     pub blockreader: BlockReader,
     pub map_tvpair_fo: MapTvPairToFo,
@@ -261,6 +343,10 @@ pub struct FixedStructReader {
     pub fixedstruct_type: FixedStructType,
     pub tz_offset: FixedOffset,
     pub entries_processed: Count,
+    pub cache_entries: FoToEntry,
+    pub entries_hits: Count,
+    pub entries_miss: Count,
+    pub entries_stored_highest: usize,
 }
 impl FixedStructReader {
     pub open spec fn n(&self) -> int { self.blockreader.file().len() as int / self.fixedstruct_type.esz() }
@@ -270,6 +356,7 @@ impl FixedStructReader {
         &&& self.blockreader.file().len() + ENTRY_SZ_MAX <= u64::MAX
         &&& self.blockreader.file().len() == self.n() * self.fixedstruct_type.esz()
         &&& keys_ok(self.map_tvpair_fo@, self.blockreader.file(), self.fixedstruct_type, self.n())
+        &&& cache_ok(self.cache_entries@, self.blockreader.file(), self.fixedstruct_type)
     }
     pub open spec fn same_except_map(&self, o: &Self) -> bool {
         &&& self.blockreader.file() == o.blockreader.file()
@@ -279,21 +366,16 @@ impl FixedStructReader {
     }
     // assumed: caches, statistics and block dropping do not touch the time->offset map or the file content
     #[verifier::external_body]
-    fn remove_cache_entry(&mut self, fileoffset: FileOffset) -> (r: Option<FixedStruct>)
-        ensures final(self).same_except_map(old(self)), final(self).map_tvpair_fo == old(self).map_tvpair_fo,
-            r is Some ==> r.unwrap().fo_spec() == fileoffset
-    { unimplemented!() }
-    #[verifier::external_body]
     fn dt_first_last_update(&mut self, datetime: &DateTimeL)
-        ensures final(self).same_except_map(old(self)), final(self).map_tvpair_fo == old(self).map_tvpair_fo
+        ensures final(self).same_except_map(old(self)), final(self).map_tvpair_fo == old(self).map_tvpair_fo, final(self).cache_entries == old(self).cache_entries
     { unimplemented!() }
     #[verifier::external_body]
     fn drop_entry(&mut self, fixedstruct: &FixedStruct) -> (r: usize)
-        ensures final(self).same_except_map(old(self)), final(self).map_tvpair_fo == old(self).map_tvpair_fo
+        ensures final(self).same_except_map(old(self)), final(self).map_tvpair_fo == old(self).map_tvpair_fo, final(self).cache_entries == old(self).cache_entries
     { unimplemented!() }
     #[verifier::external_body]
     fn set_error(&mut self, error: &Error)
-        ensures final(self).same_except_map(old(self)), final(self).map_tvpair_fo == old(self).map_tvpair_fo
+        ensures final(self).same_except_map(old(self)), final(self).map_tvpair_fo == old(self).map_tvpair_fo, final(self).cache_entries == old(self).cache_entries
     { unimplemented!() }
 
 //@cut fn path=src/readers/fixedstructreader.rs impl=FixedStructReader name=filesz ret=r
@@ -340,6 +422,32 @@ impl FixedStructReader {
         }
 //@end
 
+//@cut fn path=src/readers/fixedstructreader.rs impl=FixedStructReader name=remove_cache_entry ret=r
+//@replace "self.entries_hits += 1;" "verif_count_inc(&mut self.entries_hits);"
+//@replace "self.entries_miss += 1;" "verif_count_inc(&mut self.entries_miss);"
+//@spec
+    requires vstd::laws_cmp::obeys_cmp::<FileOffset>()
+    ensures
+        final(self).same_except_map(old(self)), final(self).map_tvpair_fo == old(self).map_tvpair_fo,
+        // C08: the pre-parsed entry handed back is the one stored under exactly this offset; only it leaves the cache
+        r == (if old(self).cache_entries@.contains_key(fileoffset) { Some(old(self).cache_entries@[fileoffset]) } else { None::<FixedStruct> }),
+        final(self).cache_entries@ == old(self).cache_entries@.remove(fileoffset),
+//@at_entry
+        proof { broadcast use group_btree_axioms; }
+//@end
+//@cut fn path=src/readers/fixedstructreader.rs impl=FixedStructReader name=insert_cache_entry
+//@replace "self.entries_processed += 1;" "verif_count_inc(&mut self.entries_processed);"
+//@replace "std::cmp::max(" "verif_max_usize("
+//@spec
+    requires old(self).wf(), rec_true(entry, old(self).blockreader.file(), old(self).fixedstruct_type), vstd::laws_cmp::obeys_cmp::<FileOffset>(),
+        !old(self).cache_entries@.contains_key(entry.fo_spec()), // the function's own debug assertion
+    ensures
+        final(self).same_except_map(old(self)), final(self).map_tvpair_fo == old(self).map_tvpair_fo, final(self).wf(),
+        // C08: a pre-parsed entry is stored under its own offset
+        final(self).cache_entries@ == old(self).cache_entries@.insert(entry.fo_spec(), entry),
+//@at_entry
+        proof { broadcast use group_btree_axioms; }
+//@end
 //@cut fn path=src/readers/fixedstructreader.rs impl=FixedStructReader name=process_entry_at ret=r
 //@replace "slice_.iter_mut().for_each(|m| *m = 0);" "verif_zero(slice_);"
 //@replace "&slice_," "slice_,"
@@ -360,6 +468,8 @@ impl FixedStructReader {
             &&& final(self).map_tvpair_fo@ == (if old(self).map_tvpair_fo@.contains_key(kk) { old(self).map_tvpair_fo@.remove(kk) } else { old(self).map_tvpair_fo@ })
             &&& !(r is Done)
             &&& r is Found ==> r->Found_0.1.fo_spec() == fo
+            // C08: the record handed to the caller is the file's own record at `fo`, from the cache or freshly read
+            &&& r is Found ==> rec_true(r->Found_0.1, old(self).blockreader.file(), old(self).fixedstruct_type)
             &&& (r is Found && old(self).map_tvpair_fo@.contains_key(kk)) ==>
                     next_after(old(self).map_tvpair_fo@, old(self).blockreader.file(), old(self).fixedstruct_type, kk, r->Found_0.0)
             &&& (r is Err && r->Err_0.0 is Some && old(self).map_tvpair_fo@.contains_key(kk)) ==>
@@ -566,6 +676,95 @@ pub proof fn lemma_represents_skip(m: Map<Key, FileOffset>, file: Seq<u8>, ft: F
 
 
 // =====================================================================================================
+
+// ---- slices: where pre-parsed entries come from (score_file's scan loop) and how they reach the cache (new's last loop).
+// Between the two the list only moves (`highest_score_entries = found_entries`, the FileOk return, the match in `new`):
+// that hand-over and the empty cache of the struct literal are assumed.
+//@cut type kind=enum path=src/readers/fixedstructreader.rs name=ResultFixedStructReaderScoreFile derives=
+//@end
+//@cut type kind=type path=src/readers/fixedstructreader.rs name=ResultFixedStructReaderScoreFileError
+//@end
+pub open spec fn offs_increasing(l: Seq<(FileOffset, FixedStructDynPtr)>) -> bool {
+    forall|i: int, j: int| 0 <= i < j < l.len() ==> (#[trigger] l[i]).0 < (#[trigger] l[j]).0
+}
+#[verifier::external_body]
+pub fn verif_inc_usize(c: &mut usize) { unimplemented!() }
+
+#[verifier::exec_allows_no_decreases_clause]
+pub fn score_file_scan(
+    blockreader: &mut BlockReader,
+    oneblock: bool,
+    fixedstructtype: FixedStructType,
+    bonus: Score,
+    buffer: &mut [u8],
+    _count_total: &mut usize,
+    found_entries: &mut ListFileOffsetFixedStructPtr,
+    fo_in: FileOffset,
+) -> (r: ResultFixedStructReaderScoreFileError)
+    requires
+        fixedstructtype.layout_ok(), old(buffer)@.len() == ENTRY_SZ_MAX,
+        old(blockreader).file().len() + ENTRY_SZ_MAX <= u64::MAX, fo_in as int <= old(blockreader).file().len(),
+        pairs_true(old(found_entries)@, old(blockreader).file(), fixedstructtype), offs_increasing(old(found_entries)@),
+        forall|i: int| 0 <= i < old(found_entries)@.len() ==> (#[trigger] old(found_entries)@[i]).0 < fo_in,
+    ensures
+        final(blockreader).file() == old(blockreader).file(),
+        // C08: every (offset, raw record) pair collected while scoring is the file's own record at that offset,
+        // in increasing offset order
+        pairs_true(final(found_entries)@, old(blockreader).file(), fixedstructtype), offs_increasing(final(found_entries)@),
+{
+//@cut slice path=src/readers/fixedstructreader.rs fn=score_file impl=FixedStructReader anchor="const COUNT_FOUND_ENTRIES_MAX: usize" take=stmt label=SCORE-MAX
+//@end
+    let mut _count_loop: usize = 0;
+    let mut count_found_entries: usize = 0;
+    let mut high_score: Score = 0;
+    let mut fo: FileOffset = fo_in;
+    let ghost file0 = blockreader.file();
+//@cut slice path=src/readers/fixedstructreader.rs fn=score_file impl=FixedStructReader anchor="loop {" take=block label=SCORE-LOOP
+//@replace "buffer.iter_mut().for_each(|m| *m = 0);" "verif_zero(buffer);"
+//@replace "&mut buffer," "buffer,"
+//@replace "_count_total += 1;" "verif_inc_usize(_count_total);"
+//@replace "_count_loop += 1;" "verif_inc_usize(&mut _count_loop);"
+//@loop 1
+                invariant
+                    blockreader.file() == file0, file0 == old(blockreader).file(), fixedstructtype.layout_ok(), buffer@.len() == ENTRY_SZ_MAX,
+                    file0.len() + ENTRY_SZ_MAX <= u64::MAX, fo as int <= file0.len(),
+                    pairs_true(found_entries@, file0, fixedstructtype), offs_increasing(found_entries@),
+                    forall|i: int| 0 <= i < found_entries@.len() ==> (#[trigger] found_entries@[i]).0 < fo,
+//@before "let fixedstructptr: FixedStructDynPtr = match buffer_to_fixedstructptr("
+                proof { assert(slice_@.subrange(0, fixedstructtype.esz()) =~= file0.subrange(fo2 as int, fo2 + fixedstructtype.esz())); }
+//@end
+    ResultFixedStructReaderScoreFileError::FileErrEmpty
+}
+
+#[verifier::exec_allows_no_decreases_clause]
+pub fn new_fill_cache(
+    fixedstructreader: &mut FixedStructReader,
+    list_entries: ListFileOffsetFixedStructPtr,
+    tz_offset: FixedOffset,
+)
+    requires
+        old(fixedstructreader).wf(), vstd::laws_cmp::obeys_cmp::<FileOffset>(),
+        old(fixedstructreader).cache_entries@ =~= Map::<FileOffset, FixedStruct>::empty(),
+        pairs_true(list_entries@, old(fixedstructreader).blockreader.file(), old(fixedstructreader).fixedstruct_type), offs_increasing(list_entries@),
+    ensures
+        // C08: after construction every pre-parsed entry in the cache sits under its own offset and is the file's
+        // record there (wf includes cache_ok); the time -> offset collection is untouched
+        final(fixedstructreader).wf(), final(fixedstructreader).same_except_map(old(fixedstructreader)),
+        final(fixedstructreader).map_tvpair_fo == old(fixedstructreader).map_tvpair_fo,
+{
+    let ghost r0 = *fixedstructreader;
+//@cut slice path=src/readers/fixedstructreader.rs fn=new impl=FixedStructReader anchor="for (fo, fixedstructptr) in list_entries.into_iter()" take=block label=NEW-CACHE
+//@replace "fixedstructreader.map_tvpair_fo.iter().find(|(_tv_pair, fo2)| &fo == *fo2).is_some()" "verif_map_has_value(&fixedstructreader.map_tvpair_fo, &fo)"
+//@desugar_for 1 it plain
+//@loop 1
+            invariant
+                fixedstructreader.wf(), fixedstructreader.same_except_map(&r0), fixedstructreader.map_tvpair_fo == r0.map_tvpair_fo,
+                vstd::laws_cmp::obeys_cmp::<FileOffset>(),
+                pairs_true(it.rest(), r0.blockreader.file(), r0.fixedstruct_type), offs_increasing(it.rest()),
+                forall|c: FileOffset, i: int| #[trigger] fixedstructreader.cache_entries@.contains_key(c) && 0 <= i < it.rest().len() ==> c < (#[trigger] it.rest()[i]).0,
+//@end
+}
+
 // the worker that drives the reader: exec_fixedstructprocessor (src/bin/s4.rs).  Here process_entry_at and
 // fileoffset_first are the functions verified above (not stubs).
 #[verifier::external_body]
